@@ -4,6 +4,7 @@ package props
 
 import (
 	"fmt"
+	"net/netip"
 	"strings"
 	"time"
 
@@ -298,6 +299,66 @@ func runC01(r *vk.Run) {
 		}
 	})
 	r.Require("daemon_cases_with_unterminated_lines", 200)
+
+	// an address inside running text: what stands directly before and after it (CJK / Cyrillic / accented
+	// text written without blanks, quotes, brackets, punctuation) is not part of the address. Every line
+	// holds exactly one address, so "contains an address inside the pattern" has one reading, for |= and !=
+	r.Phase("ipneighbours", r.N(400, 40000), func(c *vk.Case) {
+		rng := c.Rng
+		neigh := []string{"失败", "连接", "失", "а", "й", "привет", "é", "ü", "ñ", "世界", "१", "٣", "🙂", "→", "\u00a0", "\u2028", "“", "”", "«", "\"", "[", "]", "(", ")", ",", ";", "=", " ", "<", ">", "'", "\t", "\xff", "\x80"}
+		var recs []Rec
+		inside := map[int64]bool{}
+		pat := vk.Pick(rng, ipPats)
+		set, _ := parseIPSet(pat)
+		n := rng.Range(4, 12)
+		for i := 0; i < n; i++ {
+			addr := vk.Pick(rng, ipValues)
+			before, after := vk.Pick(rng, neigh), vk.Pick(rng, neigh)
+			if rng.Chance(1, 4) {
+				before = ""
+			}
+			if rng.Chance(1, 4) {
+				after = ""
+			}
+			if strings.Contains(addr, ":") && (strings.HasSuffix(before, ":") || strings.HasPrefix(after, ":")) {
+				after, before = "", ""
+			}
+			line := vk.Pick(rng, []string{"", "connect ", "msg=", "连接"}) + before + addr + after + vk.Pick(rng, []string{"", " done", "失败", " ."})
+			if strings.HasSuffix(before+"x", ".x") || strings.HasPrefix(after, ".") {
+				continue
+			}
+			ts := logT0 + int64(i+1)*1e9
+			recs = append(recs, Rec{TS: ts, Line: line, Labels: map[string]string{"app": "x"}})
+			a, _ := netip.ParseAddr(addr)
+			inside[ts] = set.contains(a)
+		}
+		for _, op := range []string{"|=", "!="} {
+			text := `{app="x"} ` + op + ` ip(` + quoteLogQL(pat) + `)`
+			res, err := evalQuery(&MemQuerier{Recs: recs, ErrAfter: -1}, text, logRangeParams(n))
+			c.Eval(1)
+			det := map[string]any{"query": text, "records": recs, "result": res}
+			if err != nil {
+				c.Fail("", text+": "+err.Error(), det)
+				return
+			}
+			got := map[int64]bool{}
+			for _, st := range res.Streams {
+				for _, e := range st.Entries {
+					got[e.TS] = true
+				}
+			}
+			for _, rec := range recs {
+				want := inside[rec.TS] == (op == "|=")
+				if got[rec.TS] != want {
+					c.Fail("", fmt.Sprintf("%s: line %q (its one address is inside the pattern: %v) returned=%v", text, rec.Line, inside[rec.TS], got[rec.TS]), det)
+					return
+				}
+				c.Count("addresses_in_running_text", 1)
+			}
+		}
+		c.Nontrivial(fmt.Sprintf("ipn|%d", c.Idx))
+	})
+	r.Require("addresses_in_running_text", 2000)
 
 	// a container may write the same line twice within one clock reading: two records. Every record of the
 	// dataset is given k identical copies (same timestamp, line, labels); a stateless pipeline must return
